@@ -71,7 +71,12 @@ def law_of_mass_action_rates(conc, rsys, variables=None):
         if isinstance(rxn.param, RateExpr):
             if isinstance(rxn.param, MassAction):
                 yield rxn.param(
-                    dict(chain(variables.items(), zip(rsys.substances.keys(), conc))),
+                    dict(
+                        chain(
+                            (variables or {}).items(),
+                            zip(rsys.substances.keys(), conc),
+                        )
+                    ),
                     reaction=rxn,
                 )
             else:
@@ -104,6 +109,7 @@ def dCdt_list(rsys, rates):
 
     """
     f = [0] * rsys.ns
+    rates = list(rates)  # e.g. the generator returned by law_of_mass_action_rates
     net_stoichs = rsys.net_stoichs()
     for idx_s in range(rsys.ns):
         for idx_r in range(rsys.nr):
